@@ -128,6 +128,10 @@ class Repo:
             if lt:
                 for rel, modname, is_pkg, src, tree in parsed:
                     self.inline_log.extend(localnames.recover(tree, modname, lt))
+            shp = localnames.load_shapes()
+            if shp:
+                for rel, modname, is_pkg, src, tree in parsed:
+                    self.inline_log.extend(localnames.reorient(tree, modname, shp))
             kg = inline.load_known_globals()
             if kg:
                 trees = [t for _, _, _, _, t in parsed]
